@@ -32,11 +32,17 @@ theorem C19_src_shift_is_model (vals : List (Option Rat)) (shift : Option Rat) (
     Gen.shift_and_scale nanmax vals shift scale "undo" = .ok (shiftAndScale vals shift scale .undo) :=
   ⟨GenEq.shift_and_scale_do vals shift scale hs, GenEq.shift_and_scale_undo vals shift scale⟩
 
-theorem C19_src_minmax_is_model (vals : List (Option Rat)) (lo hi : Option Rat)
-    (hne : hi.getD (nanmax vals) - lo.getD (nanmin vals) ≠ 0) :
+theorem C19_src_minmax_is_model (vals : List (Option Rat)) (lo hi : Option Rat) :
     Gen.minmax_scale nanmax nanmin vals lo hi "do" = .ok (minmaxScale vals lo hi .doIt) ∧
     Gen.minmax_scale nanmax nanmin vals lo hi "undo" = .ok (minmaxScale vals lo hi .undo) :=
-  ⟨GenEq.minmax_scale_do vals lo hi hne, GenEq.minmax_scale_undo vals lo hi⟩
+  ⟨GenEq.minmax_scale_do vals lo hi, GenEq.minmax_scale_undo vals lo hi⟩
+
+/-- On the source (F6 repaired): identical values and no minimum range — a null range — are mapped onto 0, not NaN;
+non-detections stay non-detections. -/
+theorem C19_src_null_range (vals : List (Option Rat)) (h : nanmax vals = nanmin vals) :
+    Gen.minmax_scale nanmax nanmin vals none none "do" = .ok (vals.map (Option.map fun _ => (0 : Rat))) := by
+  rw [GenEq.minmax_scale_do]
+  simp only [minmaxScale, Option.getD_none, h, GenEq.minmax1_do_null]
 
 /-- An unknown mode is refused with an `AmpycloudError` by both. -/
 theorem C19_src_badmode (vals : List (Option Rat)) (a b : Option Rat) (k : Rat) (mode : String)
